@@ -86,8 +86,12 @@ def elements_of(K):
 
 class Gen(object):
 
-    def __init__(self, d, thorough, maxlen, hints=None):
+    def __init__(self, d, thorough, maxlen, hints=None, symbolic_leaves=8):
         self.d = d
+        # leaves (in element order) that get symbolic content; the ones after that get a
+        # fixed value of the same leaf class (the cost of a path grows faster than linearly
+        # with the number of symbolic octets it carries)
+        self.sym_left = symbolic_leaves
         self.thorough = thorough
         self.maxlen = maxlen
         self.hints = hints or {}        # production name -> schema production
@@ -125,6 +129,13 @@ class Gen(object):
         return self._b if self._flip else (not self._b)
 
     # ------------------------------------------------------------ leaves
+    def sym(self):
+        """may this leaf still be symbolic?"""
+        if self.sym_left > 0:
+            self.sym_left -= 1
+            return True
+        return False
+
     def unsigned(self, lo, hi):
         w = self.row["w"]
         while w > 1 and 256 ** (w - 1) > hi:
@@ -134,7 +145,7 @@ class Gen(object):
         a, b = max(a, lo), min(b, hi)
         if a > b:
             a, b = lo, hi
-        return self.d.int(a, b, "u")
+        return self.d.int(a, b, "u") if self.sym() else b
 
     def signed(self, lo=None, hi=None):
         w = self.row["w"]
@@ -146,7 +157,7 @@ class Gen(object):
             a, b = max(a, lo), min(b, hi)
             if a > b:
                 a, b = lo, hi
-        return self.d.int(a, b, "i")
+        return self.d.int(a, b, "i") if self.sym() else a
 
     def leaf(self, K, hint=None):
         """-> atom of the primitive class K"""
@@ -170,9 +181,14 @@ class Gen(object):
         if kind in ("Real", "Double"):
             return ("atom", kind, FLOATS[self.row["f"]], None)
         if kind == "OctetString":
-            return ("atom", kind, d.bytes(self.row["L"], name="o"), None)
+            if self.sym():
+                return ("atom", kind, d.bytes(self.row["L"], name="o"), None)
+            return ("atom", kind, b"\x5a\xa5"[:self.row["L"]], None)
         if kind == "CharacterString":
-            s = "".join([chr(d.int(0x20, 0x7E, "c")) for _ in range(self.row["L"])])
+            if self.sym():
+                s = "".join([chr(d.int(0x20, 0x7E, "c")) for _ in range(self.row["L"])])
+            else:
+                s = "az"[:self.row["L"]]
             return ("atom", kind, s, None)
         if kind == "BitString":
             n = K.bitLen or (3, 8, 9)[self.row["bits"]]
@@ -187,10 +203,12 @@ class Gen(object):
             py, num = reps[self.row["e"]]
             return ("atom", kind, py, num)
         if kind in ("Date", "Time"):
-            return ("atom", kind, tuple([d.int(0, 255, "t") for _ in range(4)]), None)
+            if self.sym():
+                return ("atom", kind, tuple([d.int(0, 255, "t") for _ in range(4)]), None)
+            return ("atom", kind, (124, 2, 29, 4) if kind == "Date" else (23, 59, 58, 99), None)
         if kind == "ObjectIdentifier":
             tname, tnum = OTYPES[self.row["e"]]
-            inst = d.int(0, 4194303, "inst")
+            inst = d.int(0, 4194303, "inst") if self.sym() else 4194302
             return ("atom", kind, (tname, inst), (tnum, inst))
         raise NotImplementedError(K)
 
@@ -263,9 +281,11 @@ class Gen(object):
             for name in opt:
                 # made concrete at once: a symbolic flag would be carried into every later branch
                 present[name] = True if d.bool("p_" + name) else False
+        elif n == 0:
+            present = {}
         else:
             base = d.index(2, "base") == 1
-            k = d.index(n + 1, "toggle") - 1 if n else -1
+            k = d.index(n + 1, "toggle") - 1
             present = dict((name, base != (i == k)) for i, name in enumerate(opt))
         fields = []
         for el in K.sequenceElements:
@@ -403,7 +423,11 @@ def to_live(K, M):
         return items
     if tag == "choice":
         el = [e for e in K.choiceElements if e.name == M[1]][0]
-        return K(**{M[1]: to_live(el.klass, M[2])})
+        v = to_live(el.klass, M[2])
+        if isinstance(v, list) and is_list(el.klass):
+            # Choice.encode wants an instance of the list class, not a Python list
+            v = el.klass(v)
+        return K(**{M[1]: v})
     if tag == "seq":
         kw = {}
         els = dict((e.name, e) for e in K.sequenceElements)
